@@ -32,11 +32,11 @@ r("C09", "model-mon + store-mon", "runtime monitor: BigInt liquidation-threshold
 r("C10", E1, "runtime monitor: open-then-close round trips at unchanged prices",
   "Exploration over sizes, leverages, collateral tokens, sides, states and impact/fee settings; total received <= collateral in + one base unit per operation.", TB_MODEL)
 r("C11", E1, "runtime monitor: pnl monotonicity / cap / proportional share on cloned states",
-  "Exploration over positions, price pairs, pool states, trader pnl caps; exact BigInt pnl recomputation.", TB_MODEL)
+  "Exploration over positions, price pairs, pool states, trader pnl caps; exact BigInt pnl recomputation; real partial / dust-remainder / full decreases on clones (realised pnl must be pnl_value for the size really closed).", TB_MODEL)
 r("C12", E1, "runtime monitor: funding rate bounds and index monotonicity over histories",
-  "Exploration over open-interest configurations, elapsed times, adaptive and non-adaptive funding parameter sets; indices never decrease, rate bounds, larger side pays.", TB_MODEL)
+  "Exploration over open-interest configurations, elapsed times, adaptive and non-adaptive funding parameter sets; indices never decrease, rate bounds, larger side pays — judged on the rate and on the four per-(side, collateral) index slots.", TB_MODEL)
 r("C13", E1, "runtime monitor: borrowing accounting vs reference position set",
-  "Exploration: cumulative factors monotone, total borrowing equals Σ size×factor over the reference set, pending fees computable, incl. kink model.", TB_MODEL)
+  "Exploration: cumulative factors monotone, total borrowing equals Σ size×factor over the reference set, pending fees computable, incl. the kink model whose rate is recomputed exactly (a failure where the result is representable is a violation).", TB_MODEL)
 r("C14", E1, "runtime monitor: impact-pool distribution vs closed-form oracle",
   "Exploration over pool amounts, minimums, rates, elapsed times incl. 0 and huge, repeated distributions.", TB_MODEL)
 r("C15", E4, "runtime monitor: pure-pool delta sequences vs single-total reference, program and SDK pools differential",
@@ -54,11 +54,11 @@ r("C20", E2, "runtime monitor: keeper permission policy reference vs real update
 r("C21", E2, "runtime monitor: overlay reference model vs the real RevertibleMarket buffer (hooked constructor)",
   "Exploration over begin/read/write/commit/abandon sequences across all pool kinds, clocks and other state.", TB_SVM)
 r("C22", E2, "runtime monitor: solvency invariant after every successful instruction of random multi-market histories in hostsvm",
-  "Exploration: 4 markets sharing two vaults (one single-token market); deposits, withdrawals, shifts, swap/position orders with swap paths, liquidations, ADL, fee claims, keeper transfers; invariant checked at every quiescent point (after each successful transaction).", TB_SVM)
+  "Exploration: 4 markets sharing two vaults (one single-token market) and a GLV over three of them; deposits, withdrawals, shifts, swap/position orders with swap paths and foreign receivers, GLV deposits / withdrawals / shifts, liquidations, driven ADL (about 120 successful per quick run), fee claims, keeper transfers; invariant checked at every quiescent point (after each successful transaction); minimum observation counts per operation class.", TB_SVM)
 r("C23", E2, "runtime monitor: action lifecycle automaton + escrow/lamport conservation over random histories in hostsvm",
-  "Exploration: create/execute/close by owner, keeper, stranger; throwing and non-throwing executions, stale prices, double executions; automaton and close rules checked after every transaction.", TB_SVM)
+  "Exploration: create/execute/close by owner, keeper, stranger for deposits, withdrawals, shifts, orders (incl. a receiver other than the owner) and GLV deposits / withdrawals / shifts; throwing and non-throwing executions, stale prices, re-execution of terminal actions, variable execution fees; automaton, soft-failure and close rules checked after every transaction.", TB_SVM)
 r("C24", E2, "runtime monitor: independent re-derivation of oracle acceptance + cleared-after-use invariant",
-  "Exploration over oracle settings, feed timestamps / spreads, clock moves, token subsets (real set_prices_from_price_feed), and the exchange workload for the cleared-after-use rule.", TB_SVM)
+  "Exploration over oracle settings, feed timestamps / spreads, clock moves, token subsets (real set_prices_from_price_feed), tokens with a second (Pyth) feed and randomly switched expected provider offered real PriceUpdateV2 accounts or custom feeds, and the exchange workload for the cleared-after-use rule.", TB_SVM)
 r("C25", E2, "runtime monitor: custom price feed monotonicity over random update sequences (real instruction)",
   "Exploration over report timestamps, prices, clock moves, strict / idempotent modes.", TB_SVM)
 r("C26", E3, "runtime monitor: price decimal conversion vs BigInt truncation oracle",
@@ -82,7 +82,7 @@ r("C34", E3, "runtime monitor + Miri: fixed_map! instances vs BTreeMap reference
 r("C35", E2, "runtime monitor: name round trip (helpers and real creating instructions)",
   "Enumeration of strings 0..cap+2 over an alphabet incl. NUL / multi-byte for every name field.", TB_SVM)
 r("C36", E2, "runtime monitor: timelock reference automaton + CPI capture vs buffered instruction",
-  "Exploration over create/approve/cancel/execute/increase-delay/role changes/clock interleavings and instruction shapes.", TB_SVM)
+  "Exploration over create/approve/cancel/execute/increase-delay/role changes/clock interleavings and instruction shapes; initial delays from 0 s to near u32::MAX.", TB_SVM)
 r("C37", E2, "runtime monitor: GT bank payout BigInt oracle over random claim orders (real treasury program)",
   "Exploration over bank balances, confirmed GT totals, claim orders; factor setters.", TB_SVM)
 r("C38", E2, "runtime monitor: APY schedule BigInt definition + unstake rules at instruction level",
@@ -94,7 +94,7 @@ r("C40", E4, "runtime monitor: SDK vs program differential on identical account 
 r("C41", E3, "runtime monitor: transaction packing reference checks + real serialized size",
   "Exploration over random group sequences, signers, payers, lookup tables, memo, limits.", TB_LIB)
 r("C42", E4, "runtime monitor: brute-force path enumeration oracle on small random market graphs (hooked constructor)",
-  "Exploration over graphs <=6 tokens / <=8 markets, with and without negative cycles.", TB_LIB)
+  "Exploration over graphs <=6 tokens / <=8 markets, with and without negative cycles; the listed sub-optimality findings of the step-limited searches carry a residual bound (a lost path must have a token with a competing, at least as cheap arrival).", TB_LIB)
 r("C43", E4, "runtime monitor: Decimal round trips for all integer classes × decimals",
   "Exploration over u64/u128/i128 values and decimals 0..40; no panic; unrepresentable ⇒ error.", TB_LIB)
 r("C44", E2, "runtime monitor: independent path validator + SwapExecuted events + recorded-balance deltas (real swap orders in hostsvm)",
